@@ -4,6 +4,7 @@ for item in "$@"; do
   m=${item%%:*}; ps=$(echo ${item#*:} | tr ',' ' ')
   echo "=== $m ($ps) $(date +%T)" >> /tmp/mut/queue.log
   if [ ! -f /verif/seeded/$m/meta.json ]; then python3 /verif/tools/keep_seeded.py $m >> /tmp/mut/queue.log 2>&1 || { echo "KEEP FAILED $m" >> /tmp/mut/queue.log; continue; }; fi
+  git -C /repo worktree remove --force /tmp/wt/m$m >/dev/null 2>&1
   python3 /verif/tools/eval_seeded.py $m $ps >> /tmp/mut/queue.log 2>&1
   echo "=== done $m $(date +%T)" >> /tmp/mut/queue.log
 done
